@@ -81,7 +81,11 @@ def ascii_size(state, *operands):
             try:
                 total += len(chunk.string.encode(state["compiler"].output_charset))
             except UnicodeEncodeError:
-                return None
+                # The directive is going to fail with 'invalid-character' when
+                # it is evaluated; any size will do, but a size has to be
+                # announced so that a label mentioned in an '<expr>' chunk does
+                # not depend on the directive's contents
+                total += len(chunk.string)
         else:
             return None
     return total
